@@ -4,7 +4,7 @@ import math
 from fractions import Fraction
 from mpmath import mpf
 from harness import model as M
-from harness.runner import Violation, Stats, hyp_part, run_part, machine_part
+from harness.runner import Violation, Stats, hyp_part, run_part, machine_part, fuzz_part
 from harness.build import build, fresh, to_model, HarnessError
 from harness import lib
 from harness import refeval as RE
